@@ -33,17 +33,19 @@ def menu():
         pri.update(over)
         return dict(primary=pri, blocks=[dict(type=1, num=1, flags=0, crc_type=1, data=data)])
     T = 700000000000
+    # these ask for every status report, to a report-to endpoint that is routed out of the node
+    rq = dict(flags=B.FLAG_REQ_RECEPTION | B.FLAG_REQ_FORWARD | B.FLAG_REQ_DELIVERY | B.FLAG_REQ_DELETION, report_to='dtn://rpt/')
     return [
-        ('local', mk('dtn://node/svc', 'dtn://src/', (T, 1), data=b'L0')),
+        ('local', mk('dtn://node/svc', 'dtn://src/', (T, 1), data=b'L0', **rq)),
         ('local-seq', mk('dtn://node/svc', 'dtn://src/', (T, 2), data=b'L1')),
         ('local-src', mk('dtn://node/svc', 'dtn://src2/', (T, 1), data=b'L2')),
         ('local-time', mk('dtn://node/svc', 'dtn://src/', (T + 1, 1), data=b'L3')),
         ('frag-0', mk('dtn://node/app', 'dtn://fsrc/', (T, 9), flags=B.FLAG_IS_FRAGMENT, data=b'abc', frag_offset=0, total_adu=6)),
         ('frag-3', mk('dtn://node/app', 'dtn://fsrc/', (T, 9), flags=B.FLAG_IS_FRAGMENT, data=b'def', frag_offset=3, total_adu=6)),
-        ('own-source', mk('dtn://node/svc', NODE, (T, 1), data=b'OWN')),
+        ('own-source', mk('dtn://node/svc', NODE, (T, 1), data=b'OWN', **rq)),
         ('admin-endpoint', mk(NODE, 'dtn://src/', (T, 5), flags=B.FLAG_ADMIN, data=admin_payload(0))),
-        ('forward', mk('dtn://far/x', 'dtn://src/', (T, 6), data=b'FWD')),
-        ('no-route', mk('ipn:9.9', 'dtn://src/', (T, 7), data=b'NOR')),
+        ('forward', mk('dtn://far/x', 'dtn://src/', (T, 6), data=b'FWD', **rq)),
+        ('no-route', mk('ipn:9.9', 'dtn://src/', (T, 7), data=b'NOR', **rq)),
     ]
 
 
@@ -106,6 +108,33 @@ class RefRouter(object):
             self.forwarded.append(idn)
 
 
+def reports_of(world):
+    '''Status reports this node has emitted: (subject identity, asserted, reason), sorted.'''
+    out = []
+    for octets in world.sent():
+        dec = B.decode(octets)
+        if dec['primary']['flags'] & B.FLAG_ADMIN and dec['primary']['src'] == NODE:
+            rep = B.dec_status_report(B.payload(dec))
+            out.append((rep['subj_src'], tuple(rep['subj_ts']), rep['frag'], tuple(a for (a, _t) in rep['status']), rep['reason'],
+                        dec['primary']['dest']))
+    return sorted(out, key=repr)
+
+
+_SOLO = {}
+
+
+def solo_reports(table, idx):
+    '''Differential reference: what a fresh agent with this table reports about bundle idx
+    when that bundle is all it ever receives.'''
+    key = (table, idx)
+    if key not in _SOLO:
+        w = BpWorld(dict(node_id=NODE, rx_routes=TABLES[table], tx_routes=[('.*', 'dtn://next/', None)]))
+        w.receive(ENC[idx])
+        w.quiesce()
+        _SOLO[key] = reports_of(w)
+    return _SOLO[key]
+
+
 class HistWorld(BpWorld):
     def __init__(self, params):
         prm = dict(node_id=NODE, rx_routes=TABLES[params['table']], tx_routes=[('.*', 'dtn://next/', None)])
@@ -114,6 +143,7 @@ class HistWorld(BpWorld):
         self.depth = 0
         self.ref = RefRouter(TABLES[params['table']])
         self.history = []
+        self.ref_reports = []   # reports the first copy of each identity produces on its own
 
     def canon_extra(self, c):
         BpWorld.canon_extra(self, c)
@@ -123,6 +153,7 @@ class HistWorld(BpWorld):
         c.walk(self.ref.forwarded)
         c.walk([(d['src'], d['ts'], d['dest']) for d in self.probe.seen])
         c.walk([o.hex() for o in self.sent()])
+        c.walk(self.ref_reports)
 
     def enabled_events(self):
         events = []
@@ -142,6 +173,9 @@ class HistWorld(BpWorld):
             idx = event[1]
             self.depth += 1
             self.history.append(MENU[idx][0])
+            pri = MENU[idx][1]['primary']
+            if pri['src'] != NODE and ident(pri) not in self.ref.seen and not pri['flags'] & B.FLAG_IS_FRAGMENT:
+                self.ref_reports.extend(solo_reports(self.params['table'], idx))
             self.ref.receive(MENU[idx][1])
             self.receive(ENC[idx])
             return self.judge(False), True
@@ -180,6 +214,16 @@ class HistWorld(BpWorld):
                 if item not in want:
                     out.append(self.v('%s-against-reference' % name, dict(), 'identity %r was %s; reference expects %r' % (item, name, want)))
         quiescent = not self.runnable(self.proc)
+        reports = reports_of(self)
+        want_reports = sorted(self.ref_reports, key=repr)
+        for item in reports:
+            if reports.count(item) > want_reports.count(item):
+                out.append(self.v('report-without-first-time-processing', dict(),
+                                  'report %r emitted %d times; the first copies of the identities received account for %d'
+                                  % (item, reports.count(item), want_reports.count(item))))
+                break
+        if quiescent and reports != want_reports:
+            out.append(self.v('reports-differ-from-first-copies', dict(), 'reports %r, the first copies alone give %r' % (reports, want_reports)))
         if quiescent:
             if sorted(delivered) != sorted(ref.delivered):
                 out.append(self.v('deliveries-differ-from-reference', dict(), 'delivered %r, reference %r' % (delivered, ref.delivered)))
@@ -232,6 +276,7 @@ ASSUMPTIONS = [
     'receive histories of at most 3 (quick) / 4 (thorough) bundles from a menu of ten, idle callbacks interleaved in every order',
     'routing patterns are matched with re.match (anchored at the start) as the configuration loader compiles them',
     'a bundle addressed to the node\'s own administrative endpoint is delivered whatever the table says',
+    'four menu bundles request every status report towards a routed report-to endpoint; the reports expected for a history are those a fresh agent emits for the first copy of each identity alone (differential reference), as an upper bound in every state and exactly when quiescent',
 ]
 
 RULE = ('explicit-state search by replay on fresh real agents: all receive histories up to the depth bound over ten '
